@@ -8,6 +8,7 @@ distinct element's body must run at most once.
 """
 import itertools
 import json
+import os
 import sys
 
 import common
@@ -255,6 +256,63 @@ def api_batches(chk, rng, n):
     return fails
 
 
+def lost_data_batches(chk, root):
+    """elements whose stored result data was lost (the memento is still there, its data files are gone) are recomputed: a batch
+    with such elements, also repeated ones, runs the same bodies and returns the same as the individual calls"""
+    import shutil
+    import tempfile
+    import twosigma.memento as m
+    from twosigma.memento import Environment, ConfigurationRepository, FunctionCluster
+    from twosigma.memento.storage_filesystem import FilesystemStorageBackend
+    import logging
+    import c15fns
+    fails = []
+    orig = m.Environment.get()
+    lg = logging.getLogger("memento")
+    lvl = lg.level
+    lg.setLevel(logging.CRITICAL + 1)
+    try:
+        for xs in ([1, 1], [2, 1, 2], [1, 2], [4, 4, 0, 4]):
+            out = {}
+            for side in ("batch", "single"):
+                d = tempfile.mkdtemp(prefix="c15l_", dir=root)
+                mk = lambda: Environment(name="c15l", base_dir=d, repos=[ConfigurationRepository(name="r", clusters={
+                    "cp": FunctionCluster(name="cp", storage=FilesystemStorageBackend(path=os.path.join(d, "s")))})])
+                m.Environment.set(mk())
+                for x in sorted(set(xs)):
+                    c15fns.child(x)
+                vdir = os.path.join(d, "s", "c", ".versions")
+                for u in os.listdir(vdir):
+                    shutil.rmtree(os.path.join(vdir, u))
+                m.Environment.set(mk())
+                c15fns.EXECS.clear()
+                try:
+                    if side == "batch":
+                        rs = c15fns.child.call_batch([{"x": x} for x in xs], raise_first_exception=False)
+                    else:
+                        rs = []
+                        for x in xs:
+                            try:
+                                rs.append(c15fns.child(x))
+                            except Exception as e:
+                                rs.append(e)
+                    rs = [("exc:" + type(r).__name__) if isinstance(r, BaseException) else r for r in rs]
+                except Exception as e:
+                    rs = "raised " + type(e).__name__
+                out[side] = (rs, [e[1] for e in c15fns.EXECS])
+                shutil.rmtree(d, ignore_errors=True)
+            chk.case(["lost-data-batch", xs], nontrivial=True, sample=dict(kind="batch over elements whose result data was lost", elements=xs, results=repr(out["batch"][0])[:100]))
+            chk.count("api-batch:lost-data")
+            if out["batch"][0] != out["single"][0]:
+                fails.append(dict(clause="position-by-position", mode="lost-data", elements=xs, batch=repr(out["batch"][0]), individual=repr(out["single"][0])))
+            elif out["batch"][1] != out["single"][1]:
+                fails.append(dict(clause="same-final-store", mode="lost-data", elements=xs, note="bodies run", batch=out["batch"][1], individual=out["single"][1]))
+    finally:
+        lg.setLevel(lvl)
+        m.Environment.set(orig)
+    return fails
+
+
 def main(chk, replay=None):
     if replay is not None and "program" not in replay:
         # (api / typed batches: self-contained records)
@@ -278,7 +336,7 @@ def main(chk, replay=None):
     for fl in typed_batches(chk, rng, chk.tmpdir(), 30 if quick else 600)[:3]:
         chk.violation({"what": "typed batch differs from element-wise evaluation: %s" % fl["clause"],
                        "class": {"clause": fl["clause"], "stream": "typed-batch"}, "observed": fl})
-    for fl in api_batches(chk, rng, 54 if quick else 900)[:3]:
+    for fl in (lost_data_batches(chk, chk.tmpdir()) + api_batches(chk, rng, 54 if quick else 900))[:3]:
         chk.violation({"what": "batch entry point (%s) differs from element-wise evaluation: %s" % (fl["mode"], fl["clause"]),
                        "class": {"clause": fl["clause"], "stream": "api-batch", "mode": fl["mode"]}, "observed": fl})
     # one large batch (more than a thousand distinct elements, the last ones failing), oracle only
